@@ -18,6 +18,8 @@ RULE = (
     "automaton classifies as must-raise."
 )
 
+USES_GENERATED = ("C13",)
+
 VOCAB = ["mt", "named", "sub", "match", "should", "only", "not", "imp", "by", "impx", "byx", "impany", "byany"]
 NAMING = {"named", "sub", "match"}
 G_NODES = ["a", "b", "c"]
